@@ -14,9 +14,12 @@ the keys of `S'` below it (or only visited by `advance`), and what branches away
 hash table); `Represents H ps root S` = the root and every materialised slot whose parent is an internal node holds
 `nodeAt`; `Walker.runM` = the calls `advance_and_replace` / `advance` in order.
 
-Partial: the page set holds only pages loaded from the hash table on the ways to the terminals (no elided sub-trie is
-entered, so no `PageOrigin::Reconstructed` counters take part); the statements are about `S'` through `ScriptOK`, not
-through `kvApply`.  The sub-trie walk (walker with a parent page) is `T13_walker_child_roots_partial` in
+Partial: for an UPDATING walker the page set holds only pages loaded from the hash table on the ways to the terminals (no
+elided sub-trie is entered, so no `PageOrigin::Reconstructed` counters with real values take part — pages with the counters
+`0 / 0` are admitted since unit Q35); the statements are about `S'` through `ScriptOK`, not through `kvApply`.  The
+RECONSTRUCTING walker (`reconstruct_pages`) is covered without such a restriction by `Props/C02_WalkRecon.lean`
+(`T2_reconstruct_pages_correct`), as are the one-step elision decisions (`T2_elision_*`); what is still missing for updating
+walks that enter reconstructed pages is one guard of the counter arithmetic (`notes/Q35.md` (d) 1).  The sub-trie walk (walker with a parent page) is `T13_walker_child_roots_partial` in
 `Props/C13_PageWalker.lean`.
 -/
 namespace Nomt.C02
